@@ -313,7 +313,7 @@ func c19(c *Ctx) {
 				b = cl
 			}
 		}
-		r.Check(a != nil && b != nil && instrBefore(a, b), "PATH", fkey(fn)+"/reservations-before-pods", c.Pos(fn.Pos()), "reservations are replayed before pods", "the pod handler is registered before (or without) the reservation handler: pods whose reservation is not cached yet are dropped on restart")
+		r.Check(a != nil && b != nil && mustPass(a, b), "PATH", fkey(fn)+"/reservations-before-pods", c.Pos(fn.Pos()), "reservations are replayed before pods", "the pod handler is registered before (or without) the reservation handler: pods whose reservation is not cached yet are dropped on restart")
 	}
 	if fn := c.Fn(quotaPluginPkg, "", "New"); fn != nil {
 		var quota, pod ssa.CallInstruction
@@ -327,7 +327,7 @@ func c19(c *Ctx) {
 				}
 			}
 		}
-		r.Check(quota != nil && pod != nil && instrBefore(quota, pod), "PATH", fkey(fn)+"/quotas-before-pods", c.Pos(fn.Pos()), "quotas are replayed before pods", "the pod informer is synced before (or without) the quota informer")
+		r.Check(quota != nil && pod != nil && mustPass(quota, pod), "PATH", fkey(fn)+"/quotas-before-pods", c.Pos(fn.Pos()), "quotas are replayed before pods", "the pod informer is synced before (or without) the quota informer")
 	}
 	// reservation ledger replay (shared with C05)
 	c05events(c)
